@@ -2,6 +2,7 @@ package checks
 
 import (
 	"fmt"
+	"time"
 
 	"github.com/AsaiYusuke/jsonpath"
 	"verif/internal/gen"
@@ -138,7 +139,9 @@ func runC13(c *harness.Ctx, p *spec.Path, doc string, useNum bool) {
 // runC13Text: text is the spelling handed to the library, p its AST (for SPEC's locations).
 func runC13Text(c *harness.Ctx, p *spec.Path, text, doc string, useNum bool) {
 	cfg := std.Config(true)
+	t0 := time.Now()
 	first := lib.Retrieve(text, lib.Decode(doc, useNum), cfg)
+	costly := time.Since(t0) > 30*time.Millisecond // every index costs a retrieval plus a SPEC evaluation: bound the case
 	key := text + "\x00" + doc
 	if first.Panic != nil {
 		c.Violation("panic "+key, fmt.Sprintf("Retrieve panicked: %v", first.Panic), map[string]interface{}{"path": text, "document": doc, "stack": first.Stack})
@@ -152,6 +155,9 @@ func runC13Text(c *harness.Ctx, p *spec.Path, text, doc string, useNum bool) {
 	n := len(first.Res)
 	if n > 12 {
 		n = 12
+	}
+	if costly && n > 2 {
+		n = 2
 	}
 	for i := 0; i < n; i++ {
 		src := lib.Decode(doc, useNum)
